@@ -218,3 +218,49 @@ async fn test_count() {
             .into_bytes()
     );
 }
+
+#[actix_rt::test]
+async fn test_mutation_over_get_is_refused() {
+    let srv = test::init_service(
+        App::new()
+            .app_data(Data::new(
+                Schema::build(CountQueryRoot, CountMutation, EmptySubscription)
+                    .data(Count::default())
+                    .finish(),
+            ))
+            .service(
+                web::resource("/")
+                    .to(gql_handle_schema::<CountQueryRoot, CountMutation, EmptySubscription>),
+            ),
+    )
+    .await;
+
+    // a mutation sent in the query string of a GET request is answered with an error ...
+    let response = srv
+        .call(
+            test::TestRequest::with_uri("/?query=mutation%7BaddCount%28count%3A10%29%7D")
+                .method(Method::GET)
+                .to_request(),
+        )
+        .await
+        .unwrap();
+    let body = actix_web::body::to_bytes(response.into_body()).await.unwrap();
+    let body: serde_json::Value = serde_json::from_slice(&body).unwrap();
+    assert!(body["errors"].is_array());
+    assert!(body["data"].is_null());
+
+    // ... and has not run; queries over GET still work
+    let response = srv
+        .call(
+            test::TestRequest::with_uri("/?query=%7Bcount%7D")
+                .method(Method::GET)
+                .to_request(),
+        )
+        .await
+        .unwrap();
+    assert!(response.status().is_success());
+    assert_eq!(
+        actix_web::body::to_bytes(response.into_body()).await.unwrap(),
+        json!({"data": {"count": 0}}).to_string().into_bytes()
+    );
+}
